@@ -739,4 +739,50 @@ def histP (lo hi eps : Rat) (n : Nat) (kept : List (Rat × Rat)) : Bool :=
   decide (lo < hi) && decide (((n : Rat) - 1) * eps ≤ hi - lo) &&
     kept.all fun p => clearOfEdges lo hi eps n p.1
 
+/-! ## 2-d histograms (`Data.compute_histogram` with two attributes; round 2)
+
+Same per-axis treatment as the 1-d histogram: an element is kept when both coordinates are non-NaN and
+inside their closed (sorted) ranges; each axis has its own bin function (linear: fast_histogram with
+the 10-ulp padded upper end; log: textbook log bins).  Cells are listed row-major (`nx × ny`).
+Log ranges are strictly positive in the modelled domain. -/
+
+def hist2Keep (xlo xhi ylo yhi : Rat) (xs : List (Val × Val × Rat)) : List (Rat × Rat × Rat) :=
+  xs.filterMap fun p => match p.1, p.2.1 with
+    | .fin a, .fin b =>
+      if xlo ≤ a ∧ a ≤ xhi ∧ ylo ≤ b ∧ b ≤ yhi then some (a, b, p.2.2) else none
+    | _, _ => none
+
+def hist2Of (bx by' : Rat → Nat) (nx ny : Nat) (kept : List (Rat × Rat × Rat)) : List Rat :=
+  (List.range nx).flatMap fun i => (List.range ny).map fun j =>
+    ((kept.filter fun p => bx p.1 == i && by' p.2.1 == j).map (·.2.2)).sum
+
+def implBinAxis (lo hi : Rat) (n : Nat) (log : Bool) : Rat → Nat :=
+  if log then specBinLog lo hi n else implBinLin lo (hi + 10 * ulp hi) n
+
+def specBinAxis (lo hi : Rat) (n : Nat) (log : Bool) : Rat → Nat :=
+  if log then specBinLog lo hi n else specBinLin lo hi n
+
+def implHist2 (rx0 rx1 ry0 ry1 : Rat) (nx ny : Nat) (lx ly : Bool) (xs : List (Val × Val × Rat)) : List Rat :=
+  let xlo := min rx0 rx1; let xhi := max rx0 rx1
+  let ylo := min ry0 ry1; let yhi := max ry0 ry1
+  let kept := hist2Keep xlo xhi ylo yhi xs
+  if kept.isEmpty then List.replicate (nx * ny) 0
+  else hist2Of (implBinAxis xlo xhi nx lx) (implBinAxis ylo yhi ny ly) nx ny kept
+
+/-- **Spec**: textbook 2-d histogram over the closed ranges. -/
+def specHist2 (rx0 rx1 ry0 ry1 : Rat) (nx ny : Nat) (lx ly : Bool) (xs : List (Val × Val × Rat)) : List Rat :=
+  let xlo := min rx0 rx1; let xhi := max rx0 rx1
+  let ylo := min ry0 ry1; let yhi := max ry0 ry1
+  hist2Of (specBinAxis xlo xhi nx lx) (specBinAxis ylo yhi ny ly) nx ny (hist2Keep xlo xhi ylo yhi xs)
+
+/-- **Spec, total clause**: the cells add up to the weight of the selected elements inside both closed ranges. -/
+def specHist2Total (rx0 rx1 ry0 ry1 : Rat) (xs : List (Val × Val × Rat)) : Rat :=
+  ((hist2Keep (min rx0 rx1) (max rx0 rx1) (min ry0 ry1) (max ry0 ry1) xs).map (·.2.2)).sum
+
+/-- Per-axis clean-stratum condition (decidable): no kept coordinate on an interior edge in log space;
+`histP` (clear of the padded edges) for a linear axis. -/
+def axisClean (lo hi : Rat) (n : Nat) (log : Bool) (vals : List Rat) : Bool :=
+  if log then !(vals.any (onInteriorEdgeLog lo hi n))
+  else lo == hi || histP lo hi (10 * ulp hi) n (vals.map fun v => (v, 1))
+
 end GlueVerif.Stats
